@@ -149,6 +149,36 @@ class C10Machine(RecordingMixin, RuleBasedStateMachine):
             self.nontrivial = True
 
     # --------------------------------------------------------------- steps
+    def do_twin_circuit(self, v, label, bounded):
+        """Two distinct Parameters initialised exactly alike, both used in one circuit (which also offers something to
+        every in-place rewrite: a non-adjacent beam splitter, two mergeable swaps)."""
+        if len(self.circs) >= 4 or len(self.params) >= 7:
+            return
+        b = [0, 1] if bounded else None
+        i1 = self.new_param(v, b, label, "unit")
+        i2 = self.new_param(v, b, label, "unit")
+        prog = {"n": 3, "ops": [["bs", 0, 2, {"p": 0}, "Rx", 0], ["swaps", [[0, 1], [1, 0]]],
+                                ["swaps", [[1, 2], [2, 1]]], ["bs", 1, 2, {"p": 1}, "H", 0]]}
+        objs = [self.params[i1]["obj"], self.params[i2]["obj"]]
+        try:
+            real = build_real(prog, objs)
+        except Exception as e:  # noqa: BLE001
+            raise unexpected(e, "build circuit with twin parameters") from e
+        self.circs.append({"real": real, "prog": prog, "pids": [i1, i2], "kinds": ["unit", "unit"], "frozen": None,
+                           "nested": False})
+        self.info_labels.add("twin-parameters-in-one-circuit")
+
+    def do_param_twin(self, j):
+        """A second, distinct Parameter initialised exactly like an existing one (same current value, bounds, label)."""
+        if not self.params or len(self.params) >= 8:
+            return
+        src = self.params[j % len(self.params)]
+        bounds = None if src["min"] is None and src["max"] is None else [src["min"], src["max"]]
+        v = src["value"]
+        if isinstance(v, (int, float)) and not isinstance(v, bool) and v == v:
+            self.new_param(v, bounds, getattr(src["obj"], "label", None), src["kind"])
+            self.info_labels.add("twin-parameter")
+
     def do_param(self, value, bounded, lo, hi, label, kind):
         if len(self.params) >= 8:
             return
@@ -399,6 +429,14 @@ class C10Machine(RecordingMixin, RuleBasedStateMachine):
     @initialize(v=unit_val)
     def first(self, v):
         self.step("param", value=v, bounded=True, lo=0, hi=1, label="r", kind="unit")
+
+    @rule(v=st.sampled_from([0.0, 0.5, 1.0, 0.3]), label=st.sampled_from([None, "a"]), bounded=st.booleans())
+    def r_twin_circuit(self, v, label, bounded):
+        self.step("twin_circuit", v=v, label=label, bounded=bounded)
+
+    @rule(j=st.integers(0, 7))
+    def r_param_twin(self, j):
+        self.step("param_twin", j=j)
 
     @rule(value=any_num, bounded=st.booleans(), lo=st.one_of(st.just(0.0), st.floats(-4, 0)),
           hi=st.one_of(st.just(0.0), st.just(0), st.floats(0, 4)),
